@@ -37,6 +37,8 @@ SCAFFOLD = [('S', {
     'P1': 1, 'Q1': 2, 'R1': 3,
     'S1': '=P1&Q1', 'T1': '=CONCATENATE(P1,Q1)', 'U1': '=P1&Q1&R1', 'V1': '=CONCATENATE(P1,Q1,R1)',
     'W1': '=CONCATENATE(P1)',
+    # & next to arithmetic: the operands of & are the whole sums / products on either side of it
+    'S2': '=P1&Q1+1', 'T2': '=P1&Q1-1&R1', 'U2': '=Q1+1&P1', 'V2': '=P1&Q1*2&R1', 'W2': '=CONCATENATE(P1,Q1+1)',
 })]
 
 
@@ -398,6 +400,14 @@ def run_concat_ov(cases, stats):
         o = S.run(cls, ov, addrs + ['W1'], stats)
         judge_concat(vals, {'&': o[0], 'CONCATENATE': o[1]}, 'ov', stats, i, vio)
         judge_concat(vals[:1], {'CONCATENATE/1': o[2]}, 'ov', stats, i, vio)
+        q = vals[1]
+        if isinstance(q, (int, float)) and not isinstance(q, bool) and len(vals) == 3:
+            p_, r_ = vals[0], vals[2]
+            o2 = S.run(cls, ov, ['S2', 'T2', 'U2', 'V2', 'W2'], stats)
+            judge_concat([p_, q + 1], {'&+': o2[0], 'CONCATENATE(a,b+1)': o2[4]}, 'ov', stats, i, vio)
+            judge_concat([p_, q - 1, r_], {'&-&': o2[1]}, 'ov', stats, i, vio)
+            judge_concat([q + 1, p_], {'+&': o2[2]}, 'ov', stats, i, vio)
+            judge_concat([p_, q * 2, r_], {'&*&': o2[3]}, 'ov', stats, i, vio)
     return vio
 
 
